@@ -40,6 +40,14 @@ def gen_case(rng):
                {'op': 'finalize', '_enter': G.gen_enter(rng, rng.choice(scopes)) if rng.random() < 0.6 else []},
                {'op': 'locked'}]
       ops += extra
+  if rng.random() < 0.15:
+    # a macro whose value is (or holds) a reference to an unknown configurable: rejected at finalize like any other
+    unk = {'unk': ['zz.nope', rng.random() < 0.5]}
+    ops += [{'op': 'clear', 'constants': False},
+            {'op': 'bind', 'scope': rng.choice(['m1', 'a/layer']), 'sel': 'gin.macro', 'arg': 'value',
+             'val': unk if rng.random() < 0.5 else {'l': [1, unk]}, '_form': 'macro_key', 'block': False},
+            {'op': 'finalize', '_enter': G.gen_enter(rng, rng.choice(scopes)) if rng.random() < 0.3 else []},
+            {'op': 'locked'}]
   ops += [{'op': 'locked'}, {'op': 'config'}, {'op': 'registry'}]
   return {'dom': 'gin', 'ops': ops}
 
